@@ -14,12 +14,14 @@ import (
 	"crypto/sha256"
 	"crypto/sha512"
 	"crypto/x509"
+	"crypto/x509/pkix"
 	"encoding/base64"
 	"fmt"
 	"hash"
 	"io"
 	"math/big"
 	"strings"
+	"time"
 
 	"github.com/beevik/etree"
 	"github.com/crewjam/saml/xmlenc"
@@ -223,7 +225,11 @@ func (e *eel) xml(tag string) *etree.Element {
 			case certNonRsa:
 				c.SetText(fix.CertB64("ec_256"))
 			case certRsa:
-				c.SetText(fix.CertB64(map[int]string{1: "rsa_a", 2: "rsa_b"}[e.certID]))
+				if e.certID == 3 {
+					c.SetText(twinCertB64())
+				} else {
+					c.SetText(fix.CertB64(map[int]string{1: "rsa_a", 2: "rsa_b"}[e.certID]))
+				}
 			}
 		}
 	}
@@ -564,7 +570,7 @@ func runC11(c *Ctx) {
 			for _, cert := range []struct {
 				k  certKind
 				id int
-			}{{certAbsent, 0}, {certRsa, 1}, {certRsa, 2}, {certNonRsa, 0}, {certBadPem, 0}, {certBadDer, 0}} {
+			}{{certAbsent, 0}, {certRsa, 1}, {certRsa, 2}, {certRsa, 3}, {certNonRsa, 0}, {certBadPem, 0}, {certBadDer, 0}} {
 				for _, key := range []any{1, 2, ck, "nil", "ecdsa", "rsa-by-value"} {
 					if !c.Thorough() && di > 1 && cert.k != certRsa && cert.k != certAbsent {
 						continue
@@ -999,4 +1005,25 @@ func runC10(c *Ctx) {
 		interop("ref_to_pkg_digest_absent", map[string]string{"transport": "OaepMgf1p", "op": "interop", "mgf": "mgf_sha1_is_label_hash"},
 			strings.HasPrefix(obs, "(DOk") && bytes.Equal(out, plain), map[string]any{"digest": "absent"}, strings.SplitN(obs, " ", 2)[0])
 	}
+}
+
+var twinCert string
+
+// twinCertB64 is a certificate for a DIFFERENT RSA key that shares the modulus of key 1 (rsa_a) but has
+// public exponent 3: abstractly key number 3. A key/certificate consistency check that compares only
+// sizes or moduli takes it for key 1's certificate.
+func twinCertB64() string {
+	if twinCert != "" {
+		return twinCert
+	}
+	pub := &rsa.PublicKey{N: rsaKey(1).N, E: 3}
+	parent := fix.Cert("rsa_b")
+	tmpl := &x509.Certificate{SerialNumber: big.NewInt(4242), Subject: pkix.Name{CommonName: "twin"},
+		NotBefore: time.Date(1970, 1, 1, 0, 0, 0, 0, time.UTC), NotAfter: time.Date(9999, 12, 31, 0, 0, 0, 0, time.UTC)}
+	der, err := x509.CreateCertificate(rand.Reader, tmpl, parent, pub, fix.RSAKey("rsa_b"))
+	if err != nil {
+		panic(err)
+	}
+	twinCert = base64.StdEncoding.EncodeToString(der)
+	return twinCert
 }
